@@ -14,6 +14,9 @@ pub enum Hop {
   NextBySub,
   Clone,
   Sub,
+  /// subscribe a subscriber whose callback calls peek() while it is handed its FIRST item, i.e.
+  /// from inside the replay of the current value that subscribing performs
+  SubPeek,
   Unsub(usize),
   Peek,
   /// the next item delivered to subscriber k calls peek() from inside the callback
@@ -112,11 +115,28 @@ macro_rules! exec {
           clones.push(c);
           b = clones[clones.len() - 1].clone();
         }
-        Hop::Sub => {
+        Hop::Sub | Hop::SubPeek => {
           if unsubs.len() >= 5 {
             continue;
           }
           let id = 1 + unsubs.len() as u32;
+          if *op == Hop::SubPeek {
+            let (pp, bc) = (peek_problems.clone(), b.clone());
+            let fired = std::rc::Rc::new(std::cell::Cell::new(false));
+            set_local_cb(
+              id,
+              std::rc::Rc::new(move |n: &N| {
+                if let N::Next(v) = n {
+                  if !fired.replace(true) {
+                    let p = Behavior::<V, E>::peek(&bc);
+                    if p != *v {
+                      pp.borrow_mut().push(format!("peek() from inside the replay of {:?} to a new subscriber returned {:?}", v, p));
+                    }
+                  }
+                }
+              }),
+            );
+          }
           let s = b.clone().actual_subscribe(Probe::new(id, &log));
           unsubs.push(Some(Box::new(move || s.unsubscribe())));
           if emitted > 0 {
@@ -257,7 +277,8 @@ pub fn run(cfg: &Cfg, rep: &mut Report) {
         5 => Hop::NextBy,
         6 => if r.chance(1, 2) { Hop::NextBySub } else { Hop::NextBy },
         7 => Hop::Clone,
-        8..=10 => Hop::Sub,
+        8 | 9 => Hop::Sub,
+        10 => Hop::SubPeek,
         11 => Hop::Unsub(r.below(3)),
         12 => Hop::Peek,
         13 => match r.below(3) {
